@@ -14,6 +14,32 @@ CHECKS = {
         note="trusted: CPython 3 as reference; the generator's whitelist of shared constructs (documented differences such as list.pop(-1), duplicate dict-literal keys, i32 index parameters are excluded and listed in DESIGN.md)",
         technique="differential transcript oracle vs reference interpreter over generated programs",
         ref="DESIGN.md section 3 C01"),
+    "C09": dict(
+        engine="svh",
+        text="The algebraic laws themselves are the oracle: reflexivity, symmetry, transitivity (through equivalence classes, i.e. all triples), "
+             "agreement of ==, != and host Value::equals, equal => same hashability, same hash and interchangeable as dict keys / set members, "
+             "trichotomy and transitivity of < per orderable type, agreement with Value::compare, and sorted() = ordered stable permutation; "
+             "checked over all ordered pairs of a pool in which every abstract value is built through many representations and construction paths, "
+             "unfrozen and frozen-and-loaded. Held on the pool explored.",
+        note="trusted: the law checker in pylib/c09.py; NaN excluded from order laws (IEEE unordered) but not from reflexivity; one open known finding (lossy int/float equality) is recognised by a value-based classifier",
+        technique="runtime law monitor (algebraic properties) over all pairs/triples of a generated value pool",
+        ref="DESIGN.md section 3 C09"),
+    "C10": dict(
+        engine="svh",
+        text="Every integer operation on an exhaustive grid of boundary operand pairs (around 2^16..2^65 in quick, 2^7..2^128 in thorough) and on random operands up to 256 bits, "
+             "each in literal (foldable) and runtime (opaque) form, plus string/base conversions, formatting, int<->float and host fixed-width conversions, "
+             "is compared with CPython's exact integers. Held on the operations executed; the grid sub-space is complete for its stated bounds.",
+        note="trusted: CPython ints; shift counts limited to [-2,200], float conversions to |x|<2^1000",
+        technique="differential oracle vs exact reference arithmetic over exhaustive boundary grid + random operands",
+        ref="DESIGN.md section 3 C10"),
+    "C12": dict(
+        engine="svh",
+        text="Complete enumeration (13 800 snippets) of container kind x iterating construct x mutating operation x alias path x way of leaving the loop x nesting depth, "
+             "each judged against the lock model 'locked <=> inside an iteration extent': every mutation attempt inside must fail and change nothing, every container must be mutable again after the extent ended; "
+             "plus host-level cases (error escapes eval_module, second evaluation on the same module). Exhaustive for the stated catalogue.",
+        note="trusted: the mutator catalogue (checked against dir() of the live tree; unknown methods are reported inconclusive); builtins that call back may legitimately have finished iterating; one open known finding (error exit never releases) keyed on its exact signature",
+        technique="runtime model monitor (lock model) over an exhaustively enumerated scenario space",
+        ref="DESIGN.md section 3 C12"),
     "C11": dict(
         engine="svmap",
         text="Every observation of the real containers is compared with a Vec model after every step of random long histories (length walks across "
